@@ -40,9 +40,9 @@ def alphabet(v):
         S('conic', R=-p['Rc'], k=-1.0, mat='air', t=t[1]),
         S('conic', R=p['Rc'], k=-2.3, mat=g2, t=t[0]),
         S('conic', R=-p['Rc'], k=0.6, mat='air', t=t[1]),
-        S('asph', R=p['Ra'], k=0.0, coeffs=[1e-5, -2e-8], mat=g1, t=t[0]),
+        S('asph', R=p['Ra'], k=0.0, coeffs=[1e-5, -2e-8, 3e-11, -1e-14], mat=g1, t=t[0]),
         # ---- the remaining six are only combined to depth 2 in the quick tier
-        S('asph', R=LZ.INF, k=0.0, coeffs=[2e-4], mat='air', t=t[1]),
+        S('asph', R=LZ.INF, k=0.0, coeffs=[2e-4, 0.0, 5e-10], mat='air', t=t[1]),
         S('poly', R=-p['Ra'], k=0.0, coeffs=[[0.0, 1e-3, 1e-4], [2e-3, 1e-4, 0.0]], mat=g2, t=t[0]),
         S('cheb', R=80.0, k=0.0, coeffs=[[0.0, 0.02, 0.01], [0.03, 0.005, 0.0]], norm=[200.0, 200.0], mat='N-BK7',
           t=t[0]),
@@ -210,6 +210,16 @@ def run_unit(unit):
                     part.violation(PID, v['clause'], 'Optic.trace', cond_of(rows_of_w(0.5876)[v['k']], v),
                                    dict(surface=v['k'], ray=v['ray'], num_rays=nr, distribution=name), observed=v['observed'],
                                    expected=v['expected'], tol=v['err'])
+            # history: replace the first glass through set_index on the *same* lens object and trace again (paths and refraction must
+            # follow the new medium)
+            gi = next((i for i, s_ in enumerate(sp['surfs']) if s_['mat'] not in ('air', 'mirror')), None)
+            if gi is not None:
+                import copy as _copy
+                sp3 = _copy.deepcopy(sp)
+                sp3['surfs'][gi]['mat'] = ['ideal', 1.66, 0.0]
+                o.set_index(1.66, gi + 1)
+                part.transitions += 1
+                observe(part, o, lambda w: prescription.rows(sp3, index_of(w)), [0.0, 1.0], [0.5876], 'after-set_index')
         part.sample(dict(word=unit['word'], surfaces=[s['shape'] + ':' + str(s['mat']) for s in sp['surfs']]))
     else:
         o = LZ.sample_lenses()[unit['name']]()
